@@ -8,7 +8,10 @@ all 2^64 (2^32) values with no assumption; float statements are relative to `IEE
 -/
 import ZygoVerif.Model.Num
 import ZygoVerif.Model.Legacy
+import ZygoVerif.Model.GoSem
+import ZygoVerif.Generated.NumGo
 import ZygoVerif.Spec.MathOrder
+set_option linter.unusedSimpArgs false
 namespace ZygoVerif.Num
 
 /-! ### exactness of the integer three-way compares -/
@@ -275,6 +278,208 @@ theorem mixed_is_float (op : ArOp) (a : BitVec 64) (f : fs.F) :
     numericDo fs op (.int a) (.flt f) = .ok (floatDo fs op (fs.ofInt a.toInt) f) ∧
     numericDo fs op (.flt f) (.int a) = .ok (floatDo fs op f (fs.ofInt a.toInt)) := by
   simp [numericDo, floatOfInt64]
+
+/-! ### tie T1: the code as TRANSLATED from today's Go source equals the hand-written model
+
+`Generated/NumGo.lean` is regenerated on every run by `extract/ex_numtrans.go` from the
+go/ast + go/types form of zygo/comparisons.go and zygo/numerictower.go. The three
+`generated_eq_model_*` theorems below say that the translated entry points `Compare`,
+`NumericDo` and `IntegerDo` (with every helper they call, whatever it is called today) are
+extensionally equal to `Model/Num.lean` on all numeric operands, so every theorem above is a
+theorem about the translated code (`gen_*` restate the headline ones). A source change that
+alters behaviour breaks these proofs; one that does not (and stays inside the translated
+subset) leaves them intact. The proof scripts name no helper function and no local variable
+of the Go code: `numgo_unfold` (generated) unfolds whatever definitions exist. -/
+
+open ZygoVerif.GoSem
+
+/-- The model's numeric values as operands of the translated code. -/
+def sx : NumV fs.F → Sx fs.F
+  | .int v => .int v
+  | .uint v => .uint v
+  | .char v => .char v
+  | .flt f => .flt f
+
+/-- The model's three-way result (`Option Int`) as the translated code returns it
+(`(int, error)` with Go's 64-bit `int`). -/
+def resOfCmp : Option Int → Res (BitVec 64)
+  | none => .err
+  | some z => .ok (BitVec.ofInt 64 z)
+
+def arOp : ArOp → NumericOp
+  | .add => .Add
+  | .sub => .Sub
+  | .mul => .Mult
+  | .div => .Div
+
+/-- What the translator could neither translate nor fall back on (missing entry point,
+missing last-good copy, operand struct or enum constant that left its expected shape). -/
+theorem translator_problems_empty : NumGo.problems = [] := rfl
+
+/-- closes the goals left after both sides are unfolded on constructor operands: split every
+`if`, then the hypotheses decide each branch -/
+local macro "tie_close" : tactic =>
+  `(tactic| ((repeat' split) <;>
+      first | rfl | (simp_all [resOfCmp, mapRes, sx]; done) | (simp_all [resOfCmp, mapRes, sx]; decide)))
+
+/-- **generated_eq_model (Compare)**: the translated `(*Zlisp).Compare` — with `compareInt`,
+`compareUint64`, `compareChar`, `compareFloat`, `cmpInt64`, `signumFloat` as they are today —
+equals the model on every pair of numeric operands (all 2^128 integer pairs included). -/
+theorem generated_eq_model_compare (a b : NumV fs.F) :
+    NumGo.Compare fs (sx a) (sx b) = resOfCmp (compare fs a b) := by
+  cases a <;> cases b <;> simp only [sx] <;> numgo_unfold <;>
+    simp only [compare, cmpInt64, cmpUint64, signumFloat, runeToInt64, floatOfInt64, floatOfRune,
+      floatOfUint64] <;>
+    tie_close
+
+/-- **generated_eq_model (NumericDo)**: the translated `NumericDo` with `NumericMatch*` and
+`Numeric{Int,Uint64,Float}Do` equals the model for `+ - * /` on every pair of numeric operands. -/
+theorem generated_eq_model_numericDo (op : ArOp) (a b : NumV fs.F) :
+    NumGo.NumericDo fs (arOp op) (sx a) (sx b) = mapRes sx (numericDo fs op a b) := by
+  cases op <;> cases a <;> cases b <;> simp only [sx, arOp] <;> numgo_unfold <;>
+    simp only [numericDo, intDo, uintDo, floatDo, runeToInt64, floatOfInt64, floatOfRune,
+      floatOfUint64, apply_ite (charBack fs), apply_ite (mapRes sx)] <;>
+    (try simp only [charBack, mapRes, sx]) <;>
+    tie_close
+
+/-- **generated_eq_model (IntegerDo Modulo)**: the translated `IntegerDo`/`UintegerDo` at
+`Modulo` (the `mod` builtin) equals the model. -/
+theorem generated_eq_model_modulo (a b : NumV fs.F) :
+    NumGo.IntegerDo fs .Modulo (sx a) (sx b) = mapRes sx (moduloDo fs a b) := by
+  cases a <;> cases b <;> simp only [sx] <;> numgo_unfold <;>
+    simp only [moduloDo, runeToInt64, apply_ite (mapRes sx)] <;>
+    (try simp only [mapRes, sx]) <;>
+    tie_close
+
+/-- The translated `compareBool` (reached through `Compare`): `true > false`; a bool is not
+comparable with a number. -/
+theorem generated_compareBool (x y : Bool) (n : NumV fs.F) :
+    NumGo.Compare fs (.bool x) (.bool y) =
+      .ok (if x = y then 0#64 else if x then 1#64 else (-1#64)) ∧
+    NumGo.Compare fs (.bool x) (sx n) = .err ∧ NumGo.Compare fs (sx n) (.bool x) = .err := by
+  refine ⟨?_, ?_, ?_⟩
+  · cases x <;> cases y <;> numgo_unfold <;> rfl
+  · cases n <;> simp only [sx] <;> numgo_unfold
+  · cases n <;> simp only [sx] <;> numgo_unfold
+
+/-! #### the headline theorems, restated on the translated code -/
+
+private theorem ofInt_toInt_small (z : Int) (h : z = -1 ∨ z = 0 ∨ z = 1 ∨ z = 2 ∨ z = 3) :
+    (BitVec.ofInt 64 z).toInt = z := by
+  rcases h with rfl | rfl | rfl | rfl | rfl <;> decide
+
+/-- How `CompareFunction` reads the `(int, error)` of `Compare`. -/
+def decodeRes : Res (BitVec 64) → Option (Option Ordering)
+  | .ok v => some (if v.toInt > 1 then none else decode v.toInt)
+  | _ => none
+
+/-- **gen_cmp_exact**: the translated `Compare` returns an error exactly when the operand
+types are not comparable, a NaN code exactly when the spec says "unordered", and otherwise
+the mathematical order — for every pair of numeric operands. -/
+theorem gen_cmp_exact (L : IEEELaws fs) (a b : NumV fs.F) :
+    decodeRes (NumGo.Compare fs (sx a) (sx b)) = specCmp fs L.cmp a b := by
+  rw [generated_eq_model_compare, ← cmp_exact L a b]
+  cases h : compare fs a b with
+  | none => rfl
+  | some r => simp only [resOfCmp, decodeRes, Option.map, ofInt_toInt_small r (compare_range a b r h)]
+
+/-- The body of `CompareFunction(name)` (hand-modelled glue: argument count, operator name)
+applied to the translated `Compare`. -/
+def genCompareFn (op : CmpOp) (a b : NumV fs.F) : Res Bool :=
+  match NumGo.Compare fs (sx a) (sx b) with
+  | .ok res =>
+    if res.toInt > 1 then .ok (op == .ne)
+    else .ok (match op with
+      | .lt => res.toInt < 0
+      | .gt => res.toInt > 0
+      | .le => res.toInt ≤ 0
+      | .ge => res.toInt ≥ 0
+      | .eq => res.toInt == 0
+      | .ne => res.toInt != 0)
+  | .err => .err
+  | .panic => .panic
+
+theorem genCompareFn_eq_model (op : CmpOp) (a b : NumV fs.F) :
+    genCompareFn op a b = compareFn fs op a b := by
+  unfold genCompareFn compareFn
+  rw [generated_eq_model_compare]
+  cases h : compare fs a b with
+  | none => rfl
+  | some r => simp only [resOfCmp, ofInt_toInt_small r (compare_range a b r h)]; rfl
+
+/-- **gen_compareFn_spec**: every comparison operator over the translated `Compare` answers
+what the mathematical order says. (`nan_unordered`, `trichotomy`, `lt_gt_swap` follow by
+rewriting with `genCompareFn_eq_model`; the first and last are restated below.) -/
+theorem gen_compareFn_spec (L : IEEELaws fs) (op : CmpOp) (a b : NumV fs.F) :
+    genCompareFn op a b = specCompareFn fs L.cmp op a b := by
+  rw [genCompareFn_eq_model, compareFn_spec L]
+
+theorem gen_lt_gt_swap (L : IEEELaws fs) (a b : NumV fs.F) :
+    genCompareFn .lt a b = genCompareFn .gt b a := by
+  rw [genCompareFn_eq_model, genCompareFn_eq_model, lt_gt_swap L]
+
+theorem gen_nan_unordered (L : IEEELaws fs) (op : CmpOp) (a b : NumV fs.F)
+    (hn : (∃ f, a = .flt f ∧ fs.isNaN f = true) ∨ (∃ f, b = .flt f ∧ fs.isNaN f = true))
+    (hcomp : specCmp fs L.cmp a b ≠ none) :
+    genCompareFn op a b = .ok (op == .ne) := by
+  rw [genCompareFn_eq_model, nan_unordered L op a b hn hcomp]
+
+/-- Integer `+ - *` of the translated `NumericDo` wrap modulo 2^64. -/
+theorem gen_int_arith_wraps (op : ArOp) (a b : BitVec 64) (z : Int)
+    (h : specIntArith op a.toInt b.toInt = some z) :
+    NumGo.NumericDo fs (arOp op) (.int a) (.int b) = .ok (.int (BitVec.ofInt 64 z)) := by
+  have := generated_eq_model_numericDo (fs := fs) op (.int a) (.int b)
+  simp only [sx, numericDo, int_arith_wraps op a b z h, mapRes] at this
+  exact this
+
+theorem gen_uint_arith_wraps (op : ArOp) (a b : BitVec 64) (z : Int)
+    (h : specIntArith op a.toNat b.toNat = some z) :
+    NumGo.NumericDo fs (arOp op) (.uint a) (.uint b) = .ok (.uint (BitVec.ofInt 64 z)) := by
+  have := generated_eq_model_numericDo (fs := fs) op (.uint a) (.uint b)
+  simp only [sx, numericDo, uint_arith_wraps op a b z h, mapRes] at this
+  exact this
+
+/-- Division and modulo by zero in the translated code are the outcome `panic` (which the
+builtin-call wrapper reports as an error), never a value. -/
+theorem gen_div_mod_zero_is_error (a : BitVec 64) :
+    recovered (NumGo.NumericDo fs .Div (.int a) (.int 0#64)) = .err ∧
+    recovered (NumGo.NumericDo fs .Div (.uint a) (.uint 0#64)) = .err ∧
+    recovered (NumGo.IntegerDo fs .Modulo (.int a) (.int 0#64)) = .err ∧
+    recovered (NumGo.IntegerDo fs .Modulo (.uint a) (.uint 0#64)) = .err := by
+  have h1 := generated_eq_model_numericDo (fs := fs) .div (.int a) (.int 0#64)
+  have h2 := generated_eq_model_numericDo (fs := fs) .div (.uint a) (.uint 0#64)
+  have h3 := generated_eq_model_modulo (fs := fs) (.int a) (.int 0#64)
+  have h4 := generated_eq_model_modulo (fs := fs) (.uint a) (.uint 0#64)
+  simp only [sx, arOp] at h1 h2 h3 h4
+  rw [h1, h2, h3, h4]
+  simp [numericDo, intDo, uintDo, moduloDo, mapRes, recovered]
+
+/-- Mixed integer/float arithmetic of the translated code is carried out in float64. -/
+theorem gen_mixed_is_float (op : ArOp) (a : BitVec 64) (f : fs.F) :
+    NumGo.NumericDo fs (arOp op) (.int a) (.flt f) = .ok (sx (floatDo fs op (fs.ofInt a.toInt) f)) ∧
+    NumGo.NumericDo fs (arOp op) (.flt f) (.int a) = .ok (sx (floatDo fs op f (fs.ofInt a.toInt))) := by
+  have h1 := generated_eq_model_numericDo (fs := fs) op (.int a) (.flt f)
+  have h2 := generated_eq_model_numericDo (fs := fs) op (.flt f) (.int a)
+  simp only [sx] at h1 h2
+  rw [h1, h2]
+  simp [numericDo, floatOfInt64, mapRes]
+
+/-- A FloatSem with a one-point carrier: enough to run the integer arms in `example`s. -/
+def unitFloat : FloatSem where
+  F := Unit
+  isNaN := fun _ => false
+  lt := fun _ _ => false
+  add := fun _ _ => ()
+  sub := fun _ _ => ()
+  mul := fun _ _ => ()
+  div := fun _ _ => ()
+  ofInt := fun _ => ()
+  zero := ()
+
+example : NumGo.Compare unitFloat (.int (BitVec.intMin 64)) (.int 1#64) = .ok (-1#64) := by decide
+example : NumGo.Compare unitFloat (.uint 1#64) (.uint (BitVec.allOnes 64)) = .ok (-1#64) := by decide
+example : NumGo.NumericDo unitFloat .Div (.int 7#64) (.int 0#64) = .panic := by rfl
+example : NumGo.NumericDo unitFloat .Add (.int (BitVec.intMax 64)) (.int 1#64) = .ok (.int (BitVec.intMin 64)) := by rfl
 
 /-! ### non-vacuity: the hypotheses are met by concrete operands next to the limits -/
 
